@@ -5,16 +5,16 @@ Spec/GemSpec.v (Gem::Version).  Theorems: Properties/C01_gem.v, C02_gem.v, C10_g
 """
 from lib import sx, parse_sx
 from gen import versions
-from props.parts import mg_common as mg
+from props.parts import _mg_common as mg
 
 SYS = 7
 NAME = "RubyGems"
 
 F_C01_TAIL = "F-C01-3"    # trailing numerals of value 0 (00): final length test is not symmetric
 F_C02_TRIM = "F-C02-1"    # zero-trimming loop truncates at every zero
-F_C02_CASE = "F-C02-4"    # letters are lower-cased, Gem::Version keeps their case
-F_C02_EMPTY = "F-C02-5"   # a segment that begins with '-' right after '.' yields an extra 0 element
-F_C02_TAIL = "F-C02-6"    # F-C01-3 seen against the reference
+F_C02_CASE = "F-C02-12"    # letters are lower-cased, Gem::Version keeps their case
+F_C02_EMPTY = "F-C02-13"   # a segment that begins with '-' right after '.' yields an extra 0 element
+F_C02_TAIL = "F-C02-14"    # F-C01-3 seen against the reference
 F_C10_PRE = "F-C10-1"     # prerelease canon
 
 
